@@ -64,7 +64,7 @@ def gen_family(rng, nm, engine):
             have_default = True
         # a class without a Meta takes the Meta its *immediate* base class declares (class_helper.call_meta_initializer_if_needed);
         # a grandchild of the declaring class without a Meta of its own is NOT bound to it and loads through the default
-        # engine (noted in /tmp/ag/D/findings/grandchild-meta-not-inherited.md) — so never two classes without Meta in a row
+        # engine (noted in DESIGN.md 9.5: a grandchild class does not inherit its grandparent's Meta) — so never two classes without Meta in a row
         own_meta = lvl == 0 or not classes[-1]['own_meta'] or rng.random() < 0.5
         classes.append({'name': nm('F'), 'fields': fields, 'own_meta': own_meta})
     meta = []
